@@ -23,9 +23,25 @@ impl AggregateTargetActor {
         dependencies.insert(ExecutionKind::Service, HashSet::new());
 
         loop {
+            #[cfg(zinoma_verif)]
+            crate::verif::emit(
+                "idle",
+                &self.helper.target_id.to_string(),
+                &[
+                    ("st", self.helper.verif_snapshot()),
+                    ("actual_b", crate::verif::js_set(dependencies[&ExecutionKind::Build].iter().map(ToString::to_string))),
+                    ("actual_s", crate::verif::js_set(dependencies[&ExecutionKind::Service].iter().map(ToString::to_string))),
+                ],
+            );
             futures::select! {
                 _ = self.helper.termination_events.next().fuse() => break,
                 message = self.helper.target_actor_input_receiver.next().fuse() => {
+                    #[cfg(zinoma_verif)]
+                    crate::verif::emit(
+                        "recv",
+                        &self.helper.target_id.to_string(),
+                        &[("msg", message.as_ref().unwrap().verif_json())],
+                    );
                     match message.unwrap() {
                         ActorInputMessage::Ok { kind, target_id, actual } => {
                             let removed = self.helper.unavailable_dependencies.get_mut(&kind).unwrap().remove(&target_id);
@@ -81,5 +97,9 @@ impl AggregateTargetActor {
                 }
             }
         }
+        #[cfg(zinoma_verif)]
+        crate::verif::emit("wake_term", &self.helper.target_id.to_string(), &[]);
+        #[cfg(zinoma_verif)]
+        crate::verif::emit("actor_exit", &self.helper.target_id.to_string(), &[]);
     }
 }
